@@ -299,12 +299,18 @@ static void run_case(const struct kase *k, struct outcome *o)
 	         o->actual ? "true" : "false", o->expected ? "accept" : "reject", d_name[o->d_end], o->bytewise ? "true" : "false");
 }
 
-/* total order used to pick the minimal case per key: shorter first, then
- * numerically smaller when the bytes are read as a little-endian word */
+/* total order used to pick the minimal case per key: shorter first, then fewer
+ * never-valid bytes, then numerically smaller as a little-endian word */
 static int kase_cmp(const struct kase *a, const struct kase *b)
 {
 	if (a->nprefix != b->nprefix) return a->nprefix < b->nprefix ? -1 : 1;
 	if (a->n != b->n) return a->n < b->n ? -1 : 1;
+	int na = 0, nb = 0; /* fewer bytes that can never occur in UTF-8 (C0, C1, F5..FF) first */
+	for (int i = 0; i < a->n; i++) {
+		na += a->bytes[i] == 0xC0 || a->bytes[i] == 0xC1 || a->bytes[i] >= 0xF5;
+		nb += b->bytes[i] == 0xC0 || b->bytes[i] == 0xC1 || b->bytes[i] >= 0xF5;
+	}
+	if (na != nb) return na < nb ? -1 : 1;
 	for (int i = a->n - 1; i >= 0; i--)
 		if (a->bytes[i] != b->bytes[i]) return a->bytes[i] < b->bytes[i] ? -1 : 1;
 	if (a->ncuts != b->ncuts) return a->ncuts < b->ncuts ? -1 : 1;
